@@ -679,7 +679,7 @@ func checkC17(c *vlib.Ctx) {
 		}(w)
 	}
 	wg.Wait()
-	c.Floor(c.N(450, 20000))
+	c.Floor(c.N(450, 12000))
 }
 
 func c17Setup(c *vlib.Ctx, w int) (*env, []c17Row, bool) {
